@@ -413,8 +413,16 @@ pub fn grid_streams(limit: u32, opcodes: &[u8]) -> Vec<Stream> {
     let els: [u8; 7] = [0, 4, 8, 20, 21, 24, 255];
     let mut opq = 0u32;
     for &op in opcodes {
+        // opcodes >= 0x25 are refused on the header alone: a small sub-grid suffices for them
+        let high = op >= 0x25;
         for &kl in &kls {
+            if high && !(kl == 0 || kl == 251) {
+                continue;
+            }
             for &el in &els {
+                if high && !(el == 0 || el == 21) {
+                    continue;
+                }
                 let base = kl as i64 + el as i64;
                 let mut bls: Vec<i64> = vec![base - 1, base, base + 1, base + 5, 0, limit as i64 - 1, limit as i64, limit as i64 + 1, 0xffff_ffff];
                 bls.sort();
@@ -462,6 +470,12 @@ pub fn segmentations(n: usize, mode: &str, rng: &mut SmallRng) -> Vec<Vec<usize>
         v
     };
     match mode {
+        "two" => {
+            out.push(vec![24.min(n)]);
+            if n <= 64 {
+                out.push(vec![1; n]);
+            }
+        }
         "few" => {
             out.push(vec![1; n]);
             out.push(vec![24.min(n)]);
